@@ -55,7 +55,8 @@ def regen_facts():
 def regen_trans():
     """Go-to-Lean translator (go/translate) -> lean/Pw/Generated/Trans.lean (pkg/buffer) and TransCopy.lean
     (copy.go of the root package) TransError.lean (the ErrorResponse builder of error.go), TransWriter.lean (the result writer of writer.go/row.go)
-    and TransCache.lean (the statement and portal caches of cache.go) as executable
+    TransCache.lean (the statement and portal caches of cache.go) and TransStartup.lean (readVersion /
+    readClientParameters of handshake.go) as executable
     Lean definitions, re-derived from the working tree on every run (each file only rewritten when changed)."""
     exe = os.path.join(BIN, "pwtranslate")
     r = sh(["go", "build", "-o", exe, "."], cwd=TRANSLATE_SRC, env=GOENV)
@@ -79,6 +80,9 @@ def regen_trans():
         ([exe, "-cache", REPO], "TransCache.lean",
          "/- GENERATED: translation failed -/\nimport Pw.Go.RtCache\nnamespace Pw.TransCache\n"
          "def untranslatable : List String := [\"translator failed\"]\nend Pw.TransCache\n"),
+        ([exe, "-startup", REPO], "TransStartup.lean",
+         "/- GENERATED: translation failed -/\nimport Pw.Generated.Trans\nimport Pw.Go.RtStartup\nnamespace Pw.TransStartup\n"
+         "def untranslatable : List String := [\"translator failed\"]\nend Pw.TransStartup\n"),
     ]
     ok, msgs = True, []
     for cmd, name, stub in jobs:
